@@ -184,10 +184,14 @@ func filterKind(ev []wsEvent, kind string) []wsEvent {
 
 func TestC06_MessageFidelity(t *testing.T) {
 	rec := evid.For("C06")
-	rec.SetRule("rapid: 1..4 messages (text/binary, sizes from {0,1,125,126,127,65535,65536,max-1,max} and random, max=70000 via SetMaxMessageSize), each fragmented at generated cut points (empty fragments included), ping/pong with 0..125 bytes inserted anywhere incl. between fragments, wire bytes segmented by a generated cut set biased into frame headers (sometimes byte-by-byte), delivered through a scripted transport attached with VerifAttach; all four read APIs (async completions inline or parked per generated choice) run on the same bytes and compared with the reference event list (messages, control callbacks, frames) and with each other, and a second segmentation compared with the first; non-trivial = (message with >=2 fragments AND control frame between fragments AND a segment boundary inside a frame header) OR a 16/64-bit length; TestC06_SessionBehindHandshake: a real opening handshake (blocking/async) against a raw server that sends 1..3 messages in the same bytes as its conforming response (last one optionally cut after 1..6 bytes) and 0..2 later, the byte stream cut at 1..3 generated positions or around the end of the response head (-6..+8, i.e. inside the final CRLFCRLF); every message must arrive, byte-identical and in order, the handshake must complete; non-trivial there = segmented; distinct = hash of wire+cuts")
+	rec.SetRule("rapid: 1..4 messages (text/binary, sizes from {0,1,125,126,127,65535,65536,max-1,max} and random, max=70000 via SetMaxMessageSize; in a third of the cases ValidateUTF8(true) with ASCII text and arbitrary binary payloads), each fragmented at generated cut points (empty fragments included), ping/pong with 0..125 bytes inserted anywhere incl. between fragments, wire bytes segmented by a generated cut set biased into frame headers (sometimes byte-by-byte), delivered through a scripted transport attached with VerifAttach; all four read APIs (async completions inline or parked per generated choice) run on the same bytes and compared with the reference event list (messages, control callbacks, frames) and with each other, and a second segmentation compared with the first; non-trivial = (message with >=2 fragments AND control frame between fragments AND a segment boundary inside a frame header) OR a 16/64-bit length; TestC06_SessionBehindHandshake: a real opening handshake (blocking/async) against a raw server that sends 1..3 messages in the same bytes as its conforming response (last one optionally cut after 1..6 bytes) and 0..2 later, the byte stream cut at 1..3 generated positions or around the end of the response head (-6..+8, i.e. inside the final CRLFCRLF); every message must arrive, byte-identical and in order, the handshake must complete; non-trivial there = segmented; distinct = hash of wire+cuts")
 	rec.Assume("caller buffer for NextMessage is at least the maximum message size; control callback performs no stream calls; one read outstanding at a time")
 	vt.Check(t, 1500, func(t *rapid.T) {
 		max := 70000
+		// the optional UTF-8 validation of text frames must not disturb anything a conforming peer sends
+		validate := rapid.IntRange(0, 2).Draw(t, "validateUTF8") == 0
+		attachValidateUTF8, sessionASCIIText = validate, validate
+		defer func() { attachValidateUTF8, sessionASCIIText = false, false }()
 		sess := genSession(t, max, 4)
 		chunks, cuts, inHeader := segment(t, sess.Wire, sess.Starts, "seg.")
 		chunks2, cuts2, _ := segment(t, sess.Wire, sess.Starts, "seg2.")
